@@ -18,4 +18,13 @@ theorem gen_ppFields : Gen.ppFields = ["buf", "override", "arg", "value", "fmt",
     "panicking", "erroring", "wrapErrs", "wrappedErr"] ∧
     Gen.bufferFields = ["buf", "validUntil", "mode", "markerOpen"] := by decide
 
+/-- The two fields a recycled printer may carry over from its previous call (`reordered`,
+`goodArgNum`: `newPrinter`/`free` do not reset them) are mentioned by `doPrintf` and `argNumber` only,
+and `argNumber` is called from `doPrintf` only — which assigns both before reading them
+(`doPrintf_ignores_stale`). No other function of the package, `doPrint` and everything it reaches
+included, can depend on them. -/
+theorem gen_stale_field_users :
+    Gen.reorderedUsers = ["pp.argNumber", "pp.doPrintf"] ∧ Gen.goodArgNumUsers = ["pp.argNumber", "pp.doPrintf"] ∧
+    Gen.argNumberCallers = ["pp.doPrintf"] := by decide
+
 end Redact
